@@ -17,8 +17,11 @@ package ipnisync
 //@ func (*Syncer).fetch
 //@   property C04 C03 C02
 //@   requires s != nil && s.client != nil && ctx != nil
+//@   requires nonnilelems(s.urls)
 //@   modifies s.rootURL, s.urls, s.noPath
 //@   invokes-on-success cb
+//@   loop 1: invariant s.noPath == (old(s.noPath) || fellBack) && (fellBack ==> !old(s.noPath) && s.plainHTTP) && nonnilelems(s.urls) && s.client != nil
+//@   loop 2: invariant s.noPath == (old(s.noPath) || fellBack) && (fellBack ==> !old(s.noPath) && s.plainHTTP) && nonnilelems(s.urls) && s.client != nil && fetchURL != nil
 //@   ensures result != nil ==> s.noPath == old(s.noPath)
 //@   ensures s.noPath != old(s.noPath) ==> s.noPath && s.plainHTTP
 //@   ensures-local count("call:cb") <= 1
@@ -41,3 +44,33 @@ package ipnisync
 //@   ensures-local result1 == nil ==> validated && signer == str(s.peerInfo.ID)
 //@   ensures-local result1 == nil ==> str(result0.str) == str(as(signedHead.Head, "cidlink.Link").Cid.str)
 //@   ensures result1 != nil ==> str(result0.str) == str("")
+
+// ---------------------------------------------------------------------------
+// C02: only bytes that hash to the requested CID are stored
+
+// The fetchBlock callback: the body is streamed through the hash named by the
+// CID's own prefix (function and digest length), the digest is compared with
+// the CID's multihash, and the committer runs at most once, only after a
+// successful comparison.
+//@ func (*Syncer).fetchBlock$1
+//@   property C02
+//@   requires s != nil && s.sync != nil && data != nil
+//@   ghost eq := false
+//@   at call TeeReader#1: assert arg0 == data && arg1 == writer
+//@   at call SumStream#1: assert arg0 == tee && arg1 == mhTypeOf(str(c.str)) && arg2 == mhLenOf(str(c.str))
+//@   at call Equal#1: assert content(arg0) == cidHashOf(str(c.str)) && arg1 == sum
+//@   at call Equal#1: after ghost eq := result
+//@   at call committer#1: assert eq && str(as(arg0, "cidlink.Link").Cid.str) == str(c.str)
+//@   at call StorageWriteOpener#1: after assume result2 == nil ==> result0 != nil && result1 != nil
+//@   ensures-local count("call:committer") <= 1 && count("call:StorageWriteOpener") <= 1
+//@   ensures-local result == nil ==> count("call:committer") == 1 && eq
+//@   ensures-local !eq ==> count("call:committer") == 0
+
+// A block that can already be loaded locally is never requested.
+//@ func (*Syncer).fetchBlock
+//@   property C02
+//@   requires s != nil && s.sync != nil && s.client != nil && ctx != nil && nonnilelems(s.urls)
+//@   ghost present := false
+//@   at call Load#1: after ghost present := result0 != nil && result1 == nil
+//@   ensures-local present ==> result == nil && count("call:fetch") == 0
+//@   ensures-local !present ==> count("call:fetch") == 1
